@@ -62,6 +62,9 @@ func globItemsRemote(srcURL, itemRelDirPattern string) ([]string, error) {
 	if err != nil {
 		return nil, err
 	}
+	if err := checkRemoteStatus(resp, data); err != nil {
+		return nil, err
+	}
 
 	if len(data) == 0 {
 		return nil, convertRemoteErrNotExist(resp)
@@ -121,6 +124,9 @@ func globFilesRemote(srcURL, relPathPattern string) ([]string, error) {
 	// We must always read to the end.
 	data, err := ioutil.ReadAll(resp.Body)
 	if err != nil {
+		return nil, err
+	}
+	if err := checkRemoteStatus(resp, data); err != nil {
 		return nil, err
 	}
 
